@@ -241,9 +241,26 @@ CLAIMS['C09'] = dict(
     technique='Verus relational contracts on the extracted AST walker / path rewriter and whole-state contract on the extracted import hook',
 )
 
+CLAIMS['C16'] = dict(
+    text=('PARTIAL, function level (the hyperproperty itself is not a contract): the caches the files of one invocation share are coherent one '
+          'step at a time. Opcode cache (cache.rs whole file, Environment::get_ops_for_path / add_ops_for_path_and_content): every lookup returns '
+          'exactly the ops a fresh read-parse-check-translate of the SAME path returns; the entry is stored under and served for that path only; '
+          'the computation runs only on a miss (the FnOnce closure provably cannot be called on a hit); a failed computation leaves no entry and '
+          'no other change; hence lookups of different files commute, a repeated lookup changes nothing, a failed lookup leaves no trace (lemmas '
+          'L0-L3). Import value cache and output-lock set: exact map / set semantics with frames. Type checker shape cache '
+          '(Checker::resolve_import): looked up and stored under ONE key, the normalized join of the checker\'s directory and the path; a hit yields '
+          'exactly the shape a fresh resolution of THAT import expression yields (positioned at it, not at the first importer); failures leave no '
+          'entry (S1-S3). NOT covered: the induction over the import graph, VM::run determinism, when output locks are released '
+          '(FileBuilder::build), the assertion collector (C13 units); batches / orders / repetitions are sampled by the bounded stand-in where present.'),
+    design_ref='DESIGN.md §5 C16',
+    note=('Trusted: Verus/Z3; extraction rules and substs listed in evidence; parser, checker walk, translator, file reads as uninterpreted functions of '
+          'their inputs (file system fixed during the run); a successful type check does not depend on the import stack it started with (explicit '
+          'hypothesis of S1); BTreeMap / btree_map::Entry / BTreeSet / PathBuf models; RefCell shape cache cell opaque in env_caches.'),
+    technique='Verus whole-map contracts on the extracted op cache, Environment cache accessors and Checker::resolve_import, lemmas for commutation / idempotence',
+)
+
 NOT_APPLICABLE = {
     'C07': 'relational completeness between the whole type checker and the whole evaluator; no per-function contract within reach of Verus/Kani states "accepts what runs" (DESIGN §5 C07)',
-    'C16': 'hyperproperty over runs of a process (sets/orders of files) through cross-file memoisation; needs the whole compiler specified as a function of the file system (DESIGN §5 C16)',
     'C17': 'diagnostic positions are plumbed through ~120 translator push sites and parser-combinator error contexts; needs end positions the AST does not carry and relates two runs (DESIGN §5 C17)',
     'C19': 'the helpers are UCG programs (std/*.ucg), not Rust; neither verifier reads UCG (DESIGN §5 C19)',
 }
